@@ -25,13 +25,14 @@ def bounds(tier):
     return dict(instances="every concrete kit class x fills {0,1} x star lengths {3,8}" if tier == "thorough" else "every concrete kit class x fill 0 x star lengths {3,8}",
                 modifications="none; one extra site of the class cutter (both orientations) at 5 places; every single-letter substitution (3 alternatives) of the instance",
                 classes="all concrete kit classes (every record is offered to every class) + generic classes over all enzymes",
+                degenerate_sites="generic module/vector over every enzyme whose site has ambiguity codes (LpnPI, SgrTI, MspJI, AspBHI): near side = first/last expansion, far side = every ACGT word of the site length, 3 rotations",
                 rotations=("all n for unmodified and site-inserted records, {0, n/3, n/2, n-1} for substitutions" if tier == "quick" else "all n"),
                 registry=("every plasmid x every accepting class, structure window stride 3" if tier == "quick" else "every plasmid x every accepting class, structure window + stride n/64"))
 
 
 def goals(tier):
     return ["accepts:" + c.__name__ for c in gen.kit_classes()] + [ "accepted-with-extra-site", "module-kind", "vector-kind", "234r-style", "neighbour-kit-structure-accepted",
-            "mutated-letter-accepted", "registry-pair", "generic-pair"]
+            "mutated-letter-accepted", "registry-pair", "generic-pair", "degenerate-far-side-is-a-site", "degenerate-far-side-is-not-a-site"]
 
 
 # ---------------------------------------------------------------------------------------------
@@ -80,7 +81,14 @@ def oracle(cls, s, ov_start, ov_end, target, placeholder):
                     continue
                 rel = (w3[0] - w1[0]) % n
                 if 0 < rel < ln:
-                    return "third-cut-inside-target", dict(cut=w3[0], target=[w1[0], w2[0]])
+                    # a position that carries the (degenerate) site in both orientations at once is a special family:
+                    # Bio.Restriction reports one orientation per position, so the library's site screen miscounts
+                    fw = set(w[2] for w in ws if w[1] == 1)
+                    rv = set(w[2] for w in ws if w[1] == -1)
+                    cause = "third-cut-inside-target"
+                    if fw & rv:
+                        cause += "-record-has-a-position-matching-the-site-in-both-orientations"
+                    return cause, dict(cut=w3[0], target=[w1[0], w2[0]])
         else:
             style = "234r-style"
     if vec:
@@ -165,6 +173,9 @@ def units(tier):
         us.append(("instances", c.__name__))
     for name, g in gen.enzymes():
         us.append(("generic", name))
+    for name, g in gen.degenerate_enzymes():
+        for kind in ("module", "vector"):
+            us.append(("degenerate", (name, kind)))
     rows = regs.table()
     step = 8 if tier == "quick" else 3
     for i in range(0, len(rows), step):
@@ -216,6 +227,8 @@ def run_unit(unit, st, tier):
                 if check_pair(st, cls, s, sc, range(len(s))):
                     st.goal("generic-pair")
         st.sample(dict(family="generic", enz=enz, cls="GV_" + enz, rotation=2))
+    elif kind == "degenerate":
+        unit_degenerate(st, arg[0], arg[1], tier)
     else:
         from . import c02
         rows = regs.table()[arg[0]:arg[1]]
@@ -237,6 +250,42 @@ def run_unit(unit, st, tier):
                 check_pair(st, cls, s, sc, [r for r in rots if r])
         if rows:
             st.sample(dict(family="registry", reg=rows[0]["reg"], id=rows[0]["id"], cls=rows[0]["cls"], rotation=0))
+
+
+def unit_degenerate(st, enz, kind, tier):
+    """Enzymes whose site has ambiguity codes: the near-side site is a concrete expansion, the far-side position holds
+    EVERY word of the site's length over ACGT (most are not sites at all), everything else is A/T only so that no further
+    site can arise.  Whatever the generic class accepts is checked against IUPAC-aware cut positions."""
+    import itertools
+    g = gen.geometry_of(gen.enzyme(enz))
+    M, V = gen.generic_classes(enz)
+    cls = M if kind == "module" else V
+    gen.prime([cls])
+    L = len(g.site)
+    exps = ["".join(t) for t in itertools.product(*[rm.IUPAC[c] for c in g.site])]
+    near_list = [exps[0], exps[-1]]
+    words = ["".join(t) for t in itertools.product("ACGT", repeat=L)]
+    at = "ATTATAATATTTAATTAAATATAT"
+    x, y = at[: g.off], at[3: 3 + g.off]
+    o5, o3 = "ATTA"[: g.ov] if g.ov <= 4 else "ATTAT", "TAAT"[: g.ov] if g.ov <= 4 else "TAATA"
+    body, bb, ph = "TATTA", "AATAT", "TTAAT"
+    for near in near_list:
+        for w in words:
+            if kind == "module":
+                s = near + x + o5 + body + o3 + y + w + bb          # a module needs revcomp(site) where w stands
+            else:
+                s = o3 + bb + o5 + y + w + ph + near + x            # a vector: w stands where revcomp(site) is needed
+            is_site = rm.iupac_match(g.rsite, w)
+            n = len(s)
+            for r in sorted({0, L + g.off + 1, n - 2}):
+                scn = dict(family="degenerate", enz=enz, kind=kind, cls=cls.__name__, seq=s, far_word=w, near=near)
+                acc = check_pair(st, cls, s, scn, [r])
+                st.transitions += 1
+            if is_site:
+                st.goal("degenerate-far-side-is-a-site")
+            else:
+                st.goal("degenerate-far-side-is-not-a-site")
+    st.sample(dict(family="degenerate", enz=enz, kind=kind, far_word=words[1], near=near_list[0], rotation=0))
 
 
 def extra_coverage(tier, st):
